@@ -10,10 +10,10 @@ import (
 	"time"
 
 	"github.com/pascaldekloe/mqtt"
+	"pgregory.net/rapid"
 	"verifh/refmqtt"
 	"verifh/sim"
 	"verifh/stats"
-	"pgregory.net/rapid"
 )
 
 func TestMain(m *testing.M) {
@@ -63,6 +63,13 @@ type H struct {
 	genBase []*sim.World // earlier process generations
 	// acceptances in order, per level (Call pointers)
 	accepted [3][]*sim.Call
+	// transfers pending when this generation adopted the session
+	inherited []*Msg
+	gen       int
+	// broker session this generation started with
+	brokerInit refmqtt.Snapshot
+	// requests of synthetic records (sessions positioned at the identifier wrap)
+	extraReqs []*Req
 }
 
 func newH(rt *rapid.T, prop string, o sim.Options) *H {
@@ -72,6 +79,7 @@ func newH(rt *rapid.T, prop string, o sim.Options) *H {
 	}
 	w := sim.New(rt, o)
 	h := &H{World: w, rt: rt, prop: prop, labels: map[string]bool{}}
+	w.WithLock(func() { h.brokerInit = w.Broker.Snapshot() })
 	return h
 }
 
@@ -315,7 +323,7 @@ func (h *H) drain(done func() bool) {
 		h.WithLock(func() { h.FlushOwedLocked(c) })
 	}
 	for round := 0; ; round++ {
-		if round > 400 {
+		if round > 50 {
 			h.Failf("drain does not converge: the client keeps losing healthy connections")
 		}
 		h.App.Step()
@@ -407,6 +415,11 @@ func head(b []byte, n int) []byte {
 }
 
 func (h *H) findPub(topic string) *Req {
+	for _, r := range h.extraReqs {
+		if r.Topic == topic {
+			return r
+		}
+	}
 	for _, w := range h.worlds() {
 		for _, c := range w.Calls {
 			if r, ok := c.Meta.(*Req); ok && strings.HasPrefix(r.Kind, "pub") && r.Topic == topic {
@@ -619,4 +632,14 @@ type fataler interface {
 // is what the driver turns into a VIOLATION line.
 func violate(t fataler, prop, format string, args ...interface{}) {
 	t.Fatalf("VERIF-VIOLATION property=%s: %s", prop, fmt.Sprintf(format, args...))
+}
+
+// outboundStoreEmpty tells whether no outbound record is left in the Persistence.
+func (h *H) outboundStoreEmpty() bool {
+	for k := range h.Store.Content() {
+		if k >= 0x8000 && k <= 0xffff {
+			return false
+		}
+	}
+	return true
 }
